@@ -84,7 +84,7 @@ def check(case):
     single, batched, raw = compiled(case['model'])
     pv = np.array(case['props']['pvec'])
     K = case['props']['stiff']
-    st0 = np.array(mats.initial_state(cfg))
+    st0 = np.array(mats.library_initial_state(cfg, case['props']['pvec']))
     dt = case['dt']
     I = onp.eye(3)
     Hs, tags = [onp.zeros((3, 3))], [('rest', None)]
